@@ -2,7 +2,7 @@
 # tools/integrate.sh <name>: merge a builder's branches (ws-<name>) into /verif main and /repo main
 n="$1"
 cd /repo || exit 1
-for c in $(git rev-list --reverse --no-merges main..ws-$n); do
+for c in $(git cherry main ws-$n | grep '^+' | cut -c3-); do
   if git cherry-pick $c >/tmp/cp.out 2>&1; then echo "repo: picked $(git log --oneline -1 $c)"; 
   elif grep -q "nothing to commit\|previous cherry-pick is now empty" /tmp/cp.out; then git cherry-pick --skip; echo "repo: skipped (already applied) $(git log --oneline -1 $c)";
   else echo "repo: CONFLICT on $c"; cat /tmp/cp.out; exit 1; fi
